@@ -70,7 +70,9 @@ class Extractor:
                 self.locks.append(name)
             elif isinstance(f, ast.Name) and f.id == "_LightSwitch":
                 self.fields[name] = ("switch", name)
-                self.locks.append(name + ".mutex")
+                if v.args or v.keywords:
+                    raise ExtractError("_LightSwitch constructed with arguments (line %d)" % st.lineno)
+                self.switch_names = getattr(self, "switch_names", []) + [name]
                 self.counters.append(name + ".counter")
             else:
                 raise ExtractError("unsupported initialisation (line %d)" % st.lineno)
@@ -78,14 +80,34 @@ class Extractor:
         ok = sw_init is not None and len([s for s in sw_init.body if isinstance(s, ast.Assign)]) == 2
         if not ok:
             raise ExtractError("_LightSwitch.__init__ is not (counter = 0, mutex = Lock())")
+        # is the switch's mutex created per instance (a call of threading.Lock() in __init__), or is it an object that all
+        # instances share (a parameter whose DEFAULT is evaluated once, a class attribute, a module global)?
+        self.shared_switch_mutex = False
         for st in sw_init.body:
             if isinstance(st, ast.Assign):
                 n = _attr_name(st.targets[0])
                 if n == "counter":
                     if not (isinstance(st.value, ast.Constant) and st.value.value == 0):
                         raise ExtractError("_LightSwitch counter does not start at 0")
-                elif n != "mutex":
+                elif n == "mutex":
+                    v = st.value
+                    fresh = isinstance(v, ast.Call) and isinstance(v.func, ast.Attribute) and v.func.attr == "Lock" and not v.args
+                    if not fresh:
+                        params = [a.arg for a in sw_init.args.args]
+                        defaults = dict(zip(params[len(params) - len(sw_init.args.defaults):], sw_init.args.defaults))
+                        if isinstance(v, ast.Name) and v.id in defaults:
+                            self.shared_switch_mutex = True      # RWLock passes no argument: every switch gets the ONE default object
+                        else:
+                            raise ExtractError("_LightSwitch mutex is neither a fresh Lock() nor a default argument")
+                else:
                     raise ExtractError("unexpected _LightSwitch field %r" % n)
+        for name in getattr(self, "switch_names", []):
+            m = self._mutex_of(name)
+            if m not in self.locks:
+                self.locks.append(m)
+
+    def _mutex_of(self, switch):
+        return "_LightSwitch.shared-default-mutex" if self.shared_switch_mutex else switch + ".mutex"
 
     # one statement of a method body -> list of Cmd
     def _stmt(self, st, method, env, switch=None):
@@ -104,7 +126,7 @@ class Extractor:
                     if switch is not None:
                         if n != "mutex":
                             raise ExtractError("unknown lock %r in _LightSwitch (line %d)" % (n, st.lineno))
-                        return [Cmd(f.attr, switch + ".mutex", src=where)]
+                        return [Cmd(f.attr, self._mutex_of(switch), src=where)]
                     if self.fields.get(n, ("",))[0] == "lock":
                         return [Cmd(f.attr, n, src=where)]
                 raise ExtractError("unsupported lock expression (line %d)" % st.lineno)
